@@ -33,7 +33,8 @@ ASSUMPTIONS = [
     "required fields of lines accepted by eliot-prettyprint are well-typed: task_level iterable, timestamp a number datetime accepts",
     "compact single-line claim: task_uuid, level components and field names contain no newline",
     "eliot.filter input lines are JSON and the expression evaluates without raising",
-    "nesting depth of input lines below the interpreter's recursion limit (see LEVEL_NOTE)",
+    "field values of accepted lines nest less deep than pprint can render (about 330 levels; deeper: known finding C20-deep-value-pformat-recursion)",
+    "the output stream can encode what is written: a lone surrogate in task_uuid or in a field name (written raw) makes a strict UTF-8 stdout raise UnicodeEncodeError; environment-dependent, outside the model",
 ]
 RULE = ("format: messages drawn from the seed (field names before/between/after the special ones, unicode, "
         "multi-line/tab/long strings, nested values, every subset of action_type/message_type/action_status); "
@@ -380,7 +381,7 @@ FORMAT_CORPUS = [
 def gen_format(rng, tier):
     if tier == "quick":
         return [{"msg": gen_message(rng, nfields=(0, 1, 2, 3, 4, 6))} for _ in range(110)]
-    return [{"msg": gen_message(rng, big=True)} for _ in range(3000)]
+    return [{"msg": gen_message(rng, big=True)} for _ in range(2500)]
 
 
 def impl_format(case):
@@ -628,7 +629,7 @@ CLI_CORPUS = [
 
 def gen_cli(rng, tier):
     big = tier != "quick"
-    n = 3000 if big else 90
+    n = 2000 if big else 90
     cases = []
     for i in range(n):
         kinds = [rng.choice(LINE_KINDS) for _ in range(rng.choice([1, 2, 3, 4, 6, 10] if big else [1, 2, 3, 4, 6]))]
@@ -845,7 +846,7 @@ def gen_log_message(rng, i, big=False):
 
 def gen_filter(rng, tier):
     big = tier != "quick"
-    n = 2500 if big else 64
+    n = 1500 if big else 64
     cases = []
     names = sorted(EXPRS)
     for i in range(n):
@@ -1000,6 +1001,8 @@ LEVEL_TEXT = ("Coq theorems about the executable model of pretty_format/compact_
               "messages and byte streams and comparing with the model evaluated in Coq.")
 LEVEL_NOTE = ("Partial in the sense of DESIGN 11: pprint.pformat, json.dumps/loads, datetime.isoformat and eval of the filter "
               "expression are arguments of the model, fed with their real outputs. Guards stated in the theorems: well-typed "
-              "required fields, no newline in names for the one-line claim, JSON input for eliot.filter. Input lines nested "
-              "deeper than the interpreter's recursion limit (about 1500 '[' for json.loads, about 330 levels for pprint) make "
-              "_main stop with RecursionError: reported as a finding, not generated by this check.")
+              "required fields, no newline in names for the one-line claim, JSON input for eliot.filter. Lines nested too deeply for "
+              "json.loads (about 1500 levels) are classified Not JSON (regression cases of fix eebc9b0). A well-formed line whose "
+              "field value nests deeper than pprint can render (about 330 levels; Eliot cannot emit it) stops the default mode "
+              "with RecursionError: known finding C20-deep-value-pformat-recursion, kept as a corpus case. Lone surrogates in "
+              "task_uuid / field names versus a strict UTF-8 stdout are environment-dependent and outside the model (stated guard).")
